@@ -10,34 +10,29 @@ CLAIM = dict(
     text="Machine-checked Coq theorems over an executable model of DocumentPrinter (every print method transcribed as "
          "its sequence of writes, source(span) copies, indent()/newline()/inc()/dec() calls; an interpreter carrying "
          "the indent state and the `indented` flag and performing the byte-offset slicing with an explicit panic "
-         "outcome; doc-comment line splitting and trimming) composed with the C12 lexer/parser models. Proved for "
-         "EVERY document the parser model accepts and the printer with the three repairs (now in /repo): parse_wf, "
-         "print_no_panic, print_tokens_roundtrip (all node classes up to whole documents, via the C12 completeness "
-         "theorem), print_idempotent at token level, nothing_dropped, print_screen (the printed text passes "
-         "screening), and render_lex_partial / print_roundtrip_partial: lexing the printed text gives exactly the "
-         "token stream (kinds, texts, byte spans, doc comments) the printer meant, hence Document::parse of the "
-         "printed text returns a tree equal to the original up to source positions and doc-comment line splitting "
-         "and printing it again reproduces the text byte for byte -- under ONE decidable side condition on the "
-         "printed pieces (an identifier spelled like a keyword is directly followed by the colon), which is vacuous "
-         "unless the source contains the lexer's keyword-before-colon artefact (`record: func()`), is proved to "
-         "hold whenever no identifier token is spelled like a keyword (render_lex_plain_idents / "
-         "print_roundtrip_plain_idents: unconditional text-level theorems for those sources) and is evaluated on "
-         "every document of every run. The proof covers the layout (blanks, line feeds, doc lines, offsets, fuel) "
-         "and every token boundary: what follows each token (for all trees), stability of every scanner of the "
-         "lexer model under replacement of the following text (identifiers incl. %-escapes and dangling dashes, "
-         "strings, package names/paths with versions), keywords and symbols. The three defects of the unrepaired "
-         "printer are refuted by vm_compute witnesses. The model is tied to the code by a byte-for-byte "
-         "correspondence of the printed text on ~4.5k documents per run, and the specification predicate (re-parse "
+         "outcome; doc-comment line splitting and trimming) composed with the C12 lexer/parser models. Proved at FULL "
+         "strength for EVERY document the parser model accepts and the printer with the three repairs (now in "
+         "/repo): print_roundtrip -- Document::parse of the printed text returns a tree equal to the original up to "
+         "source positions and doc-comment line splitting, and printing that tree reproduces the text byte for byte; "
+         "through parse_wf, print_no_panic, print_tokens_roundtrip (all node classes, via the C12 completeness "
+         "theorem), print_screen, and render_lex (lexing the printed text gives exactly the token stream -- kinds, "
+         "texts, byte spans, doc comments -- the printer meant: layout, what follows each token for all trees, "
+         "stability of every scanner of the lexer model under replacement of the following text incl. %-escapes, "
+         "dangling dashes, versions, and the keyword-before-colon lexer artefact handled by a token-stream invariant "
+         "threaded through the grammar). nothing_dropped as corollary. The three defects of the unrepaired printer "
+         "are refuted by vm_compute witnesses. The model is tied to the code by a byte-for-byte correspondence of "
+         "the printed text on ~4.5k documents per run (grammar-generated with randomised layout and comments, every "
+         ".wac file and re-laid-out copies, a probe per construct), and the specification predicate (re-parse "
          "succeeds, normalised trees equal, second print identical) is evaluated on the real parser/printer.",
     design_ref="DESIGN.md §5 C13, §7 items 4, 5, 13, §8",
     note="Trusted: Coq kernel; extraction (ExtrOcamlBasic); OCaml driver; Rust harness (incl. its span-stripping/"
          "doc-normalising canonicaliser, cross-checked against the extracted `sn` on every case); Printer.v is "
-         "hand-written from printer.rs and validated by correspondence; Lexer.v/Parser.v as in C12. Not proved: "
-         "that the side condition kwcb holds for sources with a keyword-spelled identifier token (needs the grammar "
-         "position of that token); checked at run time on every case.",
+         "hand-written from printer.rs and validated by correspondence; Lexer.v/Parser.v as in C12 (the theorems "
+         "are about these models: e.g. the logos automaton is modelled by Lexer.v's rules and artefact flags).",
     technique="Coq proof (printer commands vs tree-indexed grammar via the C12 soundness/completeness theorems; "
-              "lexer tiling and scan-origin lemmas; scanner stability; syntactic adjacency of printed tokens) + "
-              "extracted-model correspondence + specification predicate evaluated on the implementation")
+              "lexer tiling, scan-origin and stream-invariant lemmas; scanner stability; syntactic adjacency of "
+              "printed tokens) + extracted-model correspondence + specification predicate evaluated on the "
+              "implementation")
 
 # The three printer defects known at design time, each confirmed on the real code. Until the main session moves them
 # into /verif/known-findings.json (or applies hooks/fix-c13-*.patch) they are consulted from here (BUILDING.md).
@@ -288,8 +283,8 @@ def run(res, tier, seed, replay):
             "the harness's strip_norm (spans -> @0+0, docs -> non-empty trimmed lines) implements spec/PrintSpec.v `sn`; "
             "checked on every case against the extracted `sn` of the parser model's tree",
             "Rust str::lines / str::trim modelled by Printer.rust_lines / Lexer.trim (Unicode White_Space table)",
-            "render_lex is proved under the decidable side condition kwcb (props/C13.v); the condition is evaluated "
-            "by the extracted model on every case (coverage key render_lex_side_condition_false)",
+            "the theorems speak about the lexer/parser MODELS of C12; their agreement with lexer.rs/ast*.rs is the "
+            "C12 correspondence, re-exercised here on every printed text (real and model re-parse)",
             "serde / serde_json serialisation of the AST and miette::SourceSpan (canonicalised by the harness)"]))
     res.assumptions = ["source texts are valid UTF-8 (Rust &str); the model works on Unicode scalar values",
                        "DocumentPrinter is used with space = None (four blanks), as everywhere in the repository",
